@@ -370,6 +370,35 @@ fn run(args: &Args, rep: &mut Report) {
         }
         acc
     });
+    // RGB values an indexed palette names exactly, in every slot
+    let special: Vec<MColor> = vcore::palette::special_rgb().into_iter().map(|(r, g, b)| MColor::Rgb(r, g, b)).collect();
+    let accs_special = rt::par(3, |slot| {
+        let mut acc = Acc::new();
+        for c in &special {
+            for extra in [0u16, sgr::UNDERLINE] {
+                let mut m = MStyle { effects: extra, ..Default::default() };
+                match slot {
+                    0 => m.fg = Some(*c),
+                    1 => m.bg = Some(*c),
+                    _ => m.ul = Some(*c),
+                }
+                acc.eval();
+                acc.nontrivial(digest_str(&m.describe()));
+                if let Err(e) = rt::guarded(|| check_style(m).and_then(|_| check_components(m))) {
+                    acc.fail("palette-rgb-values", style_json(&m), e);
+                    return acc;
+                }
+            }
+        }
+        acc.samples.push(json!({"rgb": [95, 135, 175], "slot": (["fg", "bg", "underline"][slot])}));
+        acc
+    });
+    rep.add(
+        "palette-rgb-values",
+        true,
+        "every RGB value that the xterm-256 (cube levels 0/95/135/175/215/255, 24 greys), VGA or Win10 palettes name exactly, as an RGB colour in fg, bg and underline slot, plain and underlined",
+        accs_special,
+    );
     rep.add(
         "all-colours-per-slot",
         true,
